@@ -595,6 +595,9 @@ impl Sim {
                 4 => {
                     // high leverage allowed, heavy funding
                     self.set_cfg(m, "min_collateral_factor", USD / 500);
+                    // keep the liquidation threshold below the validation threshold (a stricter liquidation
+                    // threshold is a misconfiguration covered by marketsim's known-finding class)
+                    self.set_cfg(m, "min_collateral_factor_for_liquidation", USD / 1000);
                     self.set_cfg(m, "funding_fee_factor", 200_000_000_000_000);
                     self.set_cfg(m, "funding_fee_increase_factor_per_second", 0);
                 }
@@ -1327,8 +1330,11 @@ impl Sim {
                         let open = read_pod::<Position>(&self.w, &pos).map(|p| p.state.size_in_usd > 0).unwrap_or(false);
                         if open {
                             if let Some(prices) = crate::c40::accepted_prices(&pre, &self.d, mi) {
-                                if let Some(l) = crate::c40::sdk_liquidatable(&self.w, &self.d, mi, &pos, &prices, false) {
-                                    obs.require(!l, "C09", "position_left_liquidatable", || format!("kind={:?}", self.acts[i].order_kind), || format!("order #{i} executed and left position {pos} liquidatable at the execution prices"));
+                                // "liquidatable" = a liquidation at these prices would succeed (liquidation thresholds)
+                                if let Some(reason) = crate::c40::sdk_liquidatable_reason(&self.w, &self.d, mi, &pos, &prices, true) {
+                                    let op = if self.acts[i].order_kind.map(ex::is_increase).unwrap_or(false) { "increase" } else { "decrease" };
+                                    let r = reason.clone().unwrap_or_default();
+                                    obs.require(reason.is_none(), "C09", "position_left_liquidatable", || format!("op={op},reason={r}"), || format!("order #{i} ({op}) executed and left position {pos} liquidatable at the execution prices ({r})"));
                                     obs.probe("c09_health_checked_after_trade");
                                 }
                             }
